@@ -78,7 +78,8 @@ func VH_C13_terminate(state, cause, pending int) {
 	vAssume(vAnd(vAnd(ka != 0, ka <= 3600), vAnd(sl != 0, sl <= 3600)))
 	s.reach(state, ka, sl)
 	want := []util.ClientState{util.StateDisconnected, util.StateActive, util.StateAsleep, util.StateAwake, util.StateDisconnected}[state]
-	vAssume(s.h.state.Get() == want)
+	// (state 3 = woken up once: the wake-up PINGRESP returns the client to asleep)
+	vAssume(vOr(s.h.state.Get() == want, vAnd(state == stAwake, s.h.state.Get() == util.StateAsleep)))
 	vAssume(!s.done)
 	if pending == 1 {
 		p := mqPkts.NewControlPacket(mqPkts.Publish).(*mqPkts.PublishPacket)
@@ -94,6 +95,7 @@ func VH_C13_terminate(state, cause, pending int) {
 	s.mq.take()
 	t0 := vNow()
 	ownDisconnect := false
+	stateBefore := s.h.state.Get()
 	switch cause {
 	case 0:
 		s.cancel()
@@ -117,7 +119,7 @@ func VH_C13_terminate(state, cause, pending int) {
 	}
 	stateAtCause := s.h.state.Get()
 	if !ownDisconnect {
-		stateAtCause = want
+		stateAtCause = stateBefore
 	}
 	// bounded time: one connection poll interval (plus the pending send, which is immediate here)
 	s.runFor(2*time.Second, 200)
